@@ -59,6 +59,7 @@ std::shared_ptr<IResampler> _clone_resampler(FIRResampler::Mode mode, const std:
 
 //------------------------------------------------------------------------------
 arr_real design_multirate_fir(int interp, int decim, int hlen, real_t astop) {
+    DSPLIB_ASSERT((interp > 0) && (decim > 0), "rate factors must be positive");
     auto [p, q] = IResampler::simplify(interp, decim);
     if (p == q) {
         return {1.0};
@@ -99,9 +100,11 @@ std::vector<arr_real> IResampler::polyphase(arr_real h, int m, real_t gain, bool
 }
 
 std::pair<int, int> IResampler::simplify(int p, int q) {
-    int gcd = std::gcd(p, q);
-    p /= gcd;
-    q /= gcd;
+    const int gcd = std::gcd(p, q);
+    if (gcd > 1) {
+        p /= gcd;
+        q /= gcd;
+    }
     return std::make_pair(p, q);
 }
 
@@ -123,6 +126,7 @@ FIRResampler::FIRResampler(int out_fs, int in_fs)
 }
 
 FIRResampler::FIRResampler(int out_fs, int in_fs, const arr_real& h) {
+    DSPLIB_ASSERT((out_fs > 0) && (in_fs > 0), "sample rates must be positive");
     const auto [m, d] = IResampler::simplify(out_fs, in_fs);
 
     if (m == d) {
@@ -179,6 +183,7 @@ arr_real FIRResampler::process(const arr_real& sig) {
 
 //------------------------------------------------------------------------------
 arr_real resample(const arr_real& x, int p_, int q_, int n, real_t beta) {
+    DSPLIB_ASSERT((p_ > 0) && (q_ > 0), "rate factors must be positive");
     const auto [p, q] = IResampler::simplify(p_, q_);
     if (p == q) {
         return x;
@@ -189,6 +194,7 @@ arr_real resample(const arr_real& x, int p_, int q_, int n, real_t beta) {
 }
 
 arr_real resample(const arr_real& x, int p_, int q_, const arr_real& h) {
+    DSPLIB_ASSERT((p_ > 0) && (q_ > 0), "rate factors must be positive");
     const auto [p, q] = IResampler::simplify(p_, q_);
     if (p == q) {
         return x;
